@@ -47,7 +47,18 @@ impl<'a, 'b> Wild<'a, 'b> {
                     _ => &x + &one,
                 }
             }
-            4 => crate::field::bn254() - BigUint::from(self.t.below(3) as u64),
+            4 => {
+                // around (multiples of) each curve's prime: literals are not reduced by the parser
+                let primes = crate::field::curve_primes();
+                let p = primes[self.t.below(3)].1.clone();
+                let k = BigUint::from(1 + self.t.below(3) as u64);
+                match self.t.below(4) {
+                    0 => &p * &k,
+                    1 => &p * &k + BigUint::from(1u32),
+                    2 => &p - BigUint::from(1 + self.t.below(2) as u64),
+                    _ => p,
+                }
+            }
             _ => {
                 let mut bytes = vec![0u8; 1 + self.t.below(48)];
                 for b in bytes.iter_mut() {
